@@ -41,12 +41,17 @@ package sample
 //@   allocates
 //@   ensures result != nil
 
+// Every reader is modelled as a byte stream with a ghost state (hstate) that advances on each read: the sampled
+// scalar is a function of the state read from (C01, C10, C11, C16). For crypto/rand the entry state is arbitrary.
+//@ spec fn sc_from(Int) Int
+//@ spec fn hadv(Int) Int
 //@ func Scalar
 //@   nopanic[C05]
 //@   requires rand != nil && group != nil
-//@   modifies nothing
+//@   modifies hstate(rand)
 //@   allocates
 //@   ensures result != nil
+//@   summary scval(result) == sc_from(old(hstate(rand))) && hstate(rand) == hadv(old(hstate(rand)))
 
 //@ func ScalarUnit
 //@   nopanic[C05]
